@@ -21,7 +21,8 @@ RULE = ("2..12 distinct points with small integer coordinates (dim 1..3, float32
         "random proposals recorded, or explicit proposals incl. outside the cluster / current medoid / another medoid), hybrid "
         "(function/estimator). The model runs on the implementation's own distance matrix (exact rationals) and recorded proposals; "
         "compared exactly: centre indices, labels, distances. Oracle: the invariant of the property on the implementation's output. "
-        "non-trivial := n >= 4 and k >= 2")
+        "non-trivial := n >= 4 and k >= 2"
+        " Input-class axes, each forced in every run for every entry point (cluster_common.gen_axis_streams): memory layout of the data (column subset / strided rows / Fortran / transposed / negative stride / strided columns / read-only; same values, the metric is evaluated on a fresh contiguous copy); container of the warm-start centres (2-D array or md.Trajectory slice, Python list of frames, the .centers list of an earlier result) with argument-unchanged checks on the list and the earlier result; a metric that returns its result in one reused float64 buffer; estimator-reuse histories (constructed with other parameters, optional earlier fit on the same or other data, parameters changed through set_params / attribute assignment, second fit) compared with the function form called with the current parameters; tiny length scales (x 2^-14..2^-20) incl. k-medoids started from labels+distances without centre indices. Every run of the real code is bounded by a watchdog (10 s; key does-not-terminate).")
 SHARD = 60
 
 
@@ -37,6 +38,7 @@ def generate(rng, tier):
             cases.append(cc.gen_traj_kcenters(rng))
             continue
         cases.append(cc.gen_kcenters(rng) if r < 0.4 else cc.gen_kmedoids(rng) if r < 0.8 else cc.gen_hybrid(rng))
+    cases += cc.gen_axis_streams(rng, ["kcenters", "kmedoids", "hybrid", "traj"], reps=1 if tier == "quick" else 6)
     return cases
 
 
@@ -47,7 +49,7 @@ def oracle(c, out):
     if "err" in out:
         if c["kind"] == "kcenters" and c["nclu"] is None and c["cutoff"] is None and out["err"] == "ImproperlyConfigured":
             return []      # no stopping criterion at all: rejection is the documented behaviour
-        return [("impl-error", "%s: %s" % (out["err"], out.get("msg")))]
+        return [cc.err_failure(out)]
     if c.get("ti") and not cc.is_metric_space([[cc.F(v) for v in row] for row in out["D"]]):
         return []   # the shortcut is only claimed for metrics obeying the triangle inequality; correspondence still runs
     f = cc.inv_failures(out)
@@ -70,5 +72,7 @@ def nontrivial(c, out):
 
 
 tags = cc.common_tags
-ESSENTIAL_TAGS = ["md-trajectory-input", "more-clusters-than-frames", "kcenters", "kmedoids", "hybrid", "warm-init", "ti", "estimator-form", "start-cold", "start-centers",
+ESSENTIAL_TAGS = ["tiny-scale-start-without-centres", "init-array", "init-list", "init-result", "warm-init-md-trajectory", "non-contiguous-data", "buffer-reusing-metric",
+                  "estimator-history-kcenters", "estimator-history-kmedoids", "estimator-history-hybrid",
+                  "md-trajectory-input", "more-clusters-than-frames", "kcenters", "kmedoids", "hybrid", "warm-init", "ti", "estimator-form", "start-cold", "start-centers",
                   "start-state", "start-pairs", "explicit-proposals", "random-proposals", "matrix", "euclidean", "manhattan"]
